@@ -150,9 +150,34 @@ void quadCase(Ctx &c, Rng &g, size_t deg) {
   }
 }
 
+// beyond the main catalogue: large quadrature sizes and orders 5, 6
+template <typename T>
+void wideCase(Ctx &c, Rng &g) {
+  const size_t deg = (c.caseId / 96) % 4;
+  switch ((c.caseId / 8) % 12) {
+    case 0: quadCase<T, 5, 6, 9>(c, g, deg); break;
+    case 1: quadCase<T, 6, 6, 9>(c, g, deg); break;    // 2n-1 = 17 >= 12+d
+    case 2: quadCase<T, 6, 6, 7>(c, g, deg); break;    // at / below the bound
+    case 3: quadCase<T, 0, 6, 10>(c, g, deg); break;
+    case 4: quadCase<T, 6, 3, 12>(c, g, deg); break;
+    case 5: quadCase<T, 5, 5, 16>(c, g, deg); break;
+    case 6: quadCase<T, 2, 2, 20>(c, g, deg); break;
+    case 7: quadCase<T, 4, 6, 32>(c, g, deg); break;
+    case 8: quadCase<T, 6, 5, 8>(c, g, deg); break;
+    case 9: quadCase<T, 1, 5, 11>(c, g, deg); break;
+    case 10: quadCase<T, 3, 6, 13>(c, g, deg); break;
+    default: quadCase<T, 6, 6, 15>(c, g, deg);
+  }
+  c.count("wide-catalogue");
+}
+
 template <typename T>
 void runCase(Ctx &c) {
   Rng g = c.rng();
+  if (c.caseId % 8 == 5) {
+    wideCase<T>(c, g);
+    return;
+  }
   const uint64_t k = c.caseId;
   const size_t o1 = k % (MAXO + 1), o2 = (k / (MAXO + 1)) % (MAXO + 1);
   const size_t deg = (k / ((MAXO + 1) * (MAXO + 1))) % 4;
